@@ -325,14 +325,34 @@ pub fn gen_recipient(rng: &mut Rng, cfg: &GenCfg, depth: usize) -> MRecipient {
     }
 }
 
+/// How many siblings (signers, recipients, keys of a set) beyond the few drawn individually: 1
+/// case in 40 pads the list with small copies up to a count where the array head changes width.
+fn padding_count(rng: &mut Rng) -> usize {
+    if rng.chance(1, 40) {
+        *rng.pick(&[23usize, 24, 25, 255, 256, 257])
+    } else {
+        0
+    }
+}
+
 pub fn gen_sign(rng: &mut Rng, cfg: &GenCfg) -> MSign {
     MSign {
         protected: gen_protected(rng, cfg, 0),
         unprotected: gen_header(rng, cfg, 0),
         payload: gen_opt_bytes(rng, cfg),
-        signatures: (0..rng.range(0, 3))
-            .map(|_| gen_signature(rng, cfg, 1))
-            .collect(),
+        signatures: {
+            let mut v: Vec<MSignature> = (0..rng.range(0, 3))
+                .map(|_| gen_signature(rng, cfg, 1))
+                .collect();
+            let n = padding_count(rng);
+            while v.len() < n {
+                v.push(MSignature {
+                    signature: vec![v.len() as u8],
+                    ..Default::default()
+                });
+            }
+            v
+        },
     }
 }
 
@@ -351,9 +371,19 @@ pub fn gen_mac(rng: &mut Rng, cfg: &GenCfg) -> MMac {
         unprotected: gen_header(rng, cfg, 0),
         payload: gen_opt_bytes(rng, cfg),
         tag: gen_bytes(rng, cfg),
-        recipients: (0..rng.range(0, 2))
-            .map(|_| gen_recipient(rng, cfg, 0))
-            .collect(),
+        recipients: {
+            let mut v: Vec<MRecipient> = (0..rng.range(0, 2))
+                .map(|_| gen_recipient(rng, cfg, 0))
+                .collect();
+            let n = padding_count(rng);
+            while v.len() < n {
+                v.push(MRecipient {
+                    ciphertext: Some(vec![v.len() as u8]),
+                    ..Default::default()
+                });
+            }
+            v
+        },
     }
 }
 
@@ -371,9 +401,19 @@ pub fn gen_encrypt(rng: &mut Rng, cfg: &GenCfg) -> MEncrypt {
         protected: gen_protected(rng, cfg, 0),
         unprotected: gen_header(rng, cfg, 0),
         ciphertext: gen_opt_bytes(rng, cfg),
-        recipients: (0..rng.range(0, 2))
-            .map(|_| gen_recipient(rng, cfg, 0))
-            .collect(),
+        recipients: {
+            let mut v: Vec<MRecipient> = (0..rng.range(0, 2))
+                .map(|_| gen_recipient(rng, cfg, 0))
+                .collect();
+            let n = padding_count(rng);
+            while v.len() < n {
+                v.push(MRecipient {
+                    ciphertext: Some(vec![v.len() as u8]),
+                    ..Default::default()
+                });
+            }
+            v
+        },
     }
 }
 
@@ -542,11 +582,16 @@ pub fn gen_item(rng: &mut Rng, ty: &str, cfg: &GenCfg) -> Item {
         "CoseEncrypt0" => gen_encrypt0(rng, cfg).to_item(),
         "CoseRecipient" => gen_recipient(rng, cfg, 0).to_item(),
         "CoseKey" => gen_key(rng, cfg).to_item(),
-        "CoseKeySet" => Item::array(
-            (0..rng.range(0, 3))
+        "CoseKeySet" => Item::array({
+            let mut v: Vec<Item> = (0..rng.range(0, 3))
                 .map(|_| gen_key(rng, cfg).to_item())
-                .collect(),
-        ),
+                .collect();
+            let n = padding_count(rng);
+            while v.len() < n {
+                v.push(Item::map(vec![(Item::uint(1), Item::uint(4))]));
+            }
+            v
+        }),
         "ClaimsSet" => gen_claims(rng, cfg).to_item(),
         "PartyInfo" => gen_party(rng, cfg).to_item(),
         "SuppPubInfo" => gen_supp(rng, cfg).to_item(),
@@ -612,11 +657,19 @@ pub fn gen_built(rng: &mut Rng, ty: &str, cfg: &GenCfg) -> Option<crate::endpoin
         "CoseEncrypt0" => D::Encrypt0(gen_encrypt0(rng, cfg).to_coset()),
         "CoseRecipient" => D::Recipient(gen_recipient(rng, cfg, 0).to_coset()),
         "CoseKey" => D::Key(gen_key(rng, cfg).to_coset()),
-        "CoseKeySet" => D::KeySet(coset::CoseKeySet(
-            (0..rng.range(0, 3))
+        "CoseKeySet" => D::KeySet(coset::CoseKeySet({
+            let mut v: Vec<coset::CoseKey> = (0..rng.range(0, 3))
                 .map(|_| gen_key(rng, cfg).to_coset())
-                .collect(),
-        )),
+                .collect();
+            let n = padding_count(rng);
+            while v.len() < n {
+                v.push(coset::CoseKey {
+                    kty: coset::KeyType::Assigned(coset::iana::KeyType::Symmetric),
+                    ..Default::default()
+                });
+            }
+            v
+        })),
         "ClaimsSet" => D::Claims(gen_claims(rng, cfg).to_coset()),
         "PartyInfo" => D::Party(gen_party(rng, cfg).to_coset()),
         "SuppPubInfo" => D::SuppPub(gen_supp(rng, cfg).to_coset()),
